@@ -3,11 +3,11 @@ CONSTANTS
   Layouts <- LayoutsThorough
   DangIds <- DangQuick
   Starts = {1, 2, 3, 5, 9}
-  DevChain = TRUE
-  DevDang = TRUE
-  DevUnder = TRUE
-  Allowed = {"ok", "bookmark.chain", "dangling.capture", "dangling.capture+bookmark.chain", "dangling.capture.pageorder", "dangling.capture.pageorder+bookmark.chain", "dangling.capture+dangling.capture.pageorder", "dangling.capture+dangling.capture.pageorder+bookmark.chain", "panic.empty0"}
+  DevChain = FALSE
+  DevDang = FALSE
+  DevUnder = FALSE
+  Allowed = {"ok"}
   Emit = TRUE
   EmitMod = 8
-INVARIANTS Refines Consistent FunctionForm RepairedRefines EmitInv
+INVARIANTS Refines Consistent FunctionForm EmitInv
 CHECK_DEADLOCK FALSE
